@@ -3,6 +3,7 @@ Tie: real launches through forkexec.Runner.Start with a fault induced at each re
 without callback (succeeding / failing), with / without user namespace; observed: inside the callback the image, state
 and parent of the pid; afterwards the marker file of the target, wait4(-1), the ChildError.  Each outcome must be a
 terminal outcome of the sync LTS for its configuration (evaluated in Coq) and name the induced fault."""
+import json
 import os
 
 from vlib import coq_list, coq_bool
@@ -28,6 +29,7 @@ def run(c):
     scratch = c.tmpdir("scratch")
     env = dict(os.environ, VERIF_SCRATCH=scratch)
     cases = []
+    r7 = c.rng("container-histories")
     for rep in range(2 if c.quick() else 10):
         for fault in ["none"] + list(EXPECT):
             for sync in ("none", "ok", "fail"):
@@ -44,6 +46,16 @@ def run(c):
         for fault in ("execve", "chdir", "dup3"):
             for sync in ("none", "ok", "fail"):
                 cases.append({"id": len(cases), "fault": fault, "sync": sync, "userns": False, "ptrace": True})
+    # launches in one container environment: callback before / after exec, succeeding / refusing, live / cancelled context, in histories
+    for h in range(3 if c.quick() else 20):
+        ls = []
+        for _ in range(r7.randint(4, 10)):
+            ls.append({"sync_after": r7.random() < 0.4, "cb": r7.choice(["none", "ok", "ok", "fail"]), "precancel": r7.random() < 0.2})
+        if h == 0:
+            ls = [{"sync_after": True, "cb": "ok", "precancel": False}, {"sync_after": False, "cb": "ok", "precancel": False},
+                  {"sync_after": False, "cb": "fail", "precancel": True}, {"sync_after": False, "cb": "fail", "precancel": False},
+                  {"sync_after": False, "cb": "ok", "precancel": True}, {"sync_after": True, "cb": "fail", "precancel": False}, {"sync_after": False, "cb": "none", "precancel": False}]
+        cases.append({"id": len(cases), "fault": "container_hist", "launches": ls})
     cases.append({"id": len(cases), "fault": "ptrace_runner"})
     # the launching process is killed while the callback runs (theorem C07_launcher_death)
     for k in range(4 if c.quick() else 24):
@@ -55,6 +67,31 @@ def run(c):
         if "harness_err" in o:
             raise RuntimeError(o["harness_err"])
         fault = x["fault"]
+        if fault == "container_hist":
+            for li, (l, lo) in enumerate(zip(x["launches"], o["launches"])):
+                c.count(("container", li, json.dumps(l), json.dumps(x["launches"][:li])), nontrivial=l["cb"] != "none", klass="container:%s:%s" % ("after" if l["sync_after"] else "before", l["cb"]))
+                canon = lambda what, **kw: dict({"kind": "sync-gate", "what": what, "runner": "container", "sync_after_exec": l["sync_after"], "callback": l["cb"],
+                                                 "context_cancelled_before": l["precancel"]}, **kw)
+                rep_ = {"history": x["launches"][:li + 1], "observed": o["launches"][:li + 1]}
+                if l["cb"] != "none" and lo["calls"] > 1:
+                    c.finding_or_violation(canon("the callback was invoked more than once"), rep_)
+                if not l["sync_after"]:
+                    if lo["target_ran"] and l["cb"] != "none" and lo["calls"] == 0:
+                        c.finding_or_violation(canon("the target ran although the callback was never invoked"), rep_)
+                    if lo["calls"] and (lo.get("pid_is_init") or lo.get("exe_is_target") or lo.get("marker_at_callback")):
+                        c.finding_or_violation(canon("at the callback the pid is not the blocked, not yet exec'ed child", seen={k: lo.get(k) for k in ("pid_is_init", "exe_is_target", "marker_at_callback")}), rep_)
+                    if l["cb"] == "fail" and lo["target_ran"]:
+                        c.finding_or_violation(canon("the target ran although the callback refused"), rep_)
+                else:
+                    if lo["calls"] and not lo.get("pid_is_init"):
+                        c.finding_or_violation(canon("with the callback after exec the pid is not the container init"), rep_)
+                if l["cb"] == "fail" and lo["calls"] and lo["status"] != 8:
+                    c.finding_or_violation(canon("a refusing callback does not make the launch fail", status=lo["status"]), rep_)
+                if l["cb"] != "fail" and not l["precancel"] and (lo["status"] != 1 or not lo["target_ran"]):
+                    c.finding_or_violation(canon("a correct launch failed or the target did not run", status=lo["status"], error=lo["error"][:60]), rep_)
+            if o["ping_err"] != "<nil>":
+                c.finding_or_violation({"kind": "sync-gate", "what": "the environment is unusable after the history", "runner": "container"}, {"history": x["launches"], "observed": o})
+            continue
         if fault == "launcher_death":
             c.count(("launcher_death", x["userns"]), nontrivial=True, klass="launcher-death")
             canon = lambda what, **kw: dict({"kind": "launcher-death", "what": what, "userns": x["userns"]}, **kw)
